@@ -60,6 +60,7 @@ class GroupType(EntityType):
         if not isinstance(allow, bool) and allow != 1 and allow != 0:
             raise TypeError("'allow_move_content must be a boolean.")
         self._allow_move_content = bool(allow)
+        self.workspace.update_attribute(self, "attributes")
 
     @property
     def allow_delete_content(self) -> bool:
@@ -74,3 +75,4 @@ class GroupType(EntityType):
         if not isinstance(allow, bool) and allow != 1 and allow != 0:
             raise TypeError("'allow_delete_content must be a boolean.")
         self._allow_delete_content = bool(allow)
+        self.workspace.update_attribute(self, "attributes")
